@@ -124,6 +124,16 @@ class SbxRun:
         unwrap(None)
         self.console = world.install_console()
         world.install_virtual_time()
+        data_files = {n: t for n, t in self.files.items() if not n.endswith('.py')}
+        if data_files:
+            # data files of the submission also exist on disk (in a private directory), for the plain-CPython reference
+            import os
+            d = '/tmp/verif-cwd-%d' % os.getpid()
+            os.makedirs(d, exist_ok=True)
+            os.chdir(d)
+            for n, t in data_files.items():
+                with open(os.path.join(d, n), 'w') as fh:
+                    fh.write(t)
         MAIN_REPORT.clear()
         sub = Submission(files=dict(self.files), main_file=self.main, instructor_file=INSTRUCTOR_FILE)
         MAIN_REPORT.contextualize(sub)
